@@ -1343,6 +1343,17 @@ func (s *Session) expandTopicName(msg *ClientComMessage) (string, *ServerComMess
 		routeTo = msg.Original
 	}
 
+	// Topics are classified by the name prefix: a name without a known prefix cannot be a valid topic name,
+	// and code which classifies it (types.GetTopicCat) would panic.
+	switch {
+	case routeTo == "sys":
+	case len(routeTo) > 3 && (strings.HasPrefix(routeTo, "usr") || strings.HasPrefix(routeTo, "grp") ||
+		strings.HasPrefix(routeTo, "p2p") || strings.HasPrefix(routeTo, "fnd")):
+	default:
+		logs.Warn.Println("s.etn: invalid topic name", s.sid)
+		return "", ErrMalformed(msg.Id, msg.Original, msg.Timestamp)
+	}
+
 	return routeTo, nil
 }
 
